@@ -629,7 +629,9 @@ def write_replay(
 ) -> str:
     os.makedirs(REPLAY_DIR, exist_ok=True)
     res, norm = run_record(eng, record, True)
-    path = os.path.join(REPLAY_DIR, f"{prop}-{vseed}-{run}-{v.oracle}.json".replace("/", "_"))
+    tag = hashlib.sha256((v.signature or v.oracle).encode()).hexdigest()[:8]
+    rn = f"run{run}" if run >= 0 else "enum"
+    path = os.path.join(REPLAY_DIR, f"{prop}-seed{vseed}-{rn}-{v.oracle}-{tag}.json".replace("/", "_"))
     doc = {
         "property": prop,
         "engine": eng.engine_name,
@@ -803,6 +805,8 @@ def check(prop: str, tier: str) -> int:
         print(f"VIOLATION property={prop} replay={path}")
         reported.append({"signature": sig, "replay": path, **v.to_json()})
         status = max(status, 1) if status != 2 else 2
+    if seen_sig:
+        print(f"[{prop}] violation signatures in this batch: " + ", ".join(f"{k} x{n}" for k, n in sorted(seen_sig.items())))
     for sig, n in sorted(known_hits.items()):
         print(f"KNOWN-FINDING: property={prop} {known[sig]['what']} [signature {sig}; hit {n}x]")
 
